@@ -20,6 +20,8 @@ def cfg_line(cfg):
           'detectMinIri': int(cfg.get('detect_min_iri', False))}
     if cfg['target_mode'] == 'classes':
         kv['targets'] = "|".join(cfg['targets'])
+    if cfg.get('from_file'):
+        kv['targetsFromFile'] = 1
     if cfg['ignore_ns'] is not None:
         kv['ignoreNs'] = "|".join(cfg['ignore_ns'])
     return "CFG\t" + "\t".join("%s=%s" % (k, v) for k, v in kv.items())
